@@ -317,6 +317,9 @@ func (ctx *_builtinJSON_stringifyContext) str(key Value, holder *Object) bool {
 			switch pValue := o1.pValue.(type) {
 			case valueInt, valueFloat:
 				value = o.ToNumber()
+			case *Symbol:
+				// a Symbol wrapper has none of the [[NumberData]], [[StringData]], [[BooleanData]],
+				// [[BigIntData]] slots: it is serialised like any other object
 			default:
 				value = pValue
 			}
